@@ -76,6 +76,11 @@ impl<'r> G<'r> {
                             self.ctx_stack.pop();
                             self.put(", ");
                             self.scopes.push(vec![VarInfo { name: acc.clone(), ty: Ty::Int, decl: da }, VarInfo { name: var.clone(), ty: Ty::Int, decl: dv }]);
+                            let untyped = self.rng.chance(1, 3);
+                            if untyped {
+                                self.put("!cond(true: ");
+                                self.p.features.push("bang:untyped-body");
+                            }
                             self.put("!add(");
                             self.use_here(&acc, da, "bang-body");
                             self.put(", ");
@@ -85,6 +90,9 @@ impl<'r> G<'r> {
                                 self.value(&Ty::Int, depth + 1, "bang-body");
                             }
                             self.put(")");
+                            if untyped {
+                                self.put(")");
+                            }
                             self.scopes.pop();
                             self.put(")");
                             self.p.features.push("bang:foldl");
@@ -267,11 +275,19 @@ impl<'r> G<'r> {
                             self.put(", ");
                             self.scopes.push(vec![VarInfo { name: var.clone(), ty: Ty::Int, decl: dv }]);
                             if el == Ty::Int {
+                                let untyped = self.rng.chance(1, 3);
+                                if untyped {
+                                    self.put("!cond(true: ");
+                                    self.p.features.push("bang:untyped-body");
+                                }
                                 self.put("!add(");
                                 self.use_here(&var, dv, "bang-body");
                                 self.put(", ");
                                 self.value(&Ty::Int, depth + 1, "bang-body");
                                 self.put(")");
+                                if untyped {
+                                    self.put(")");
+                                }
                             } else {
                                 self.put("!cast<string>(");
                                 self.use_here(&var, dv, "bang-body");
@@ -292,11 +308,24 @@ impl<'r> G<'r> {
                                 self.value(&Ty::List(Box::new(Ty::Int)), depth + 1, position);
                                 self.put(", ");
                                 self.scopes.push(vec![VarInfo { name: var.clone(), ty: Ty::Int, decl: dv }]);
+                                // the predicate comes in forms whose type the indexer can and cannot infer
+                                let form = self.rng.below(3);
+                                if form == 1 {
+                                    self.put("!cond(");
+                                } else if form == 2 {
+                                    self.put("!if(true, ");
+                                }
                                 self.put("!lt(");
                                 self.use_here(&var, dv, "bang-body");
                                 self.put(", ");
                                 self.value(&Ty::Int, depth + 1, "bang-body");
                                 self.put(")");
+                                if form == 1 {
+                                    self.put(": 1, true: 0)");
+                                    self.p.features.push("bang:untyped-body");
+                                } else if form == 2 {
+                                    self.put(", 0)");
+                                }
                                 self.scopes.pop();
                                 self.put(")");
                                 self.p.features.push("bang:filter");
